@@ -257,7 +257,7 @@ func trunc(s string, n int) string {
 }
 
 func checkC12(r *vlib.Run) int {
-	n := r.Pick(480, 20000)
+	n := r.Pick(960, 20000)
 	res := runChildren(r, "mon-race", "c12", n, (n+31)/32, 15*time.Minute)
 	r.Set("streams", res.stats["streams"])
 	r.Set("records", res.stats["records"])
